@@ -98,6 +98,11 @@ def pytask_execute_task(session: Session, task: PTask) -> bool | None:
             )
             new_reports.append(report)
 
+        # A task which cannot be collected must not get lost silently.
+        for report in new_reports:
+            if report.outcome == CollectionOutcome.FAIL and report.exc_info:
+                raise report.exc_info[1].with_traceback(report.exc_info[2])
+
         session.tasks.extend(
             i.node
             for i in new_reports
